@@ -286,3 +286,12 @@ Example C06_inline_instance :
          (match res_map (pseg_event true 0) (wexpand exw_ws) with Ok evs => expected_with join_threshold evs | Err e => Err e end)
   /\ match spans_of (read 0 (map (wseg_line true) exw_ws)) with Ok [(s1, e1); (s2, e2)] => Qeq_bool e1 s2 | _ => false end = true.
 Proof. vm_compute. split; reflexivity. Qed.
+From PV Require Import proofs.SccInlineCorFacts.
+Theorem C06_popon_times_inline_text : forall d off ws evs up eol,
+  Forall (wseg_clock d off) ws -> forallb pseg_ok8 (wexpand ws) = true ->
+  res_map (pseg_event d off) (wexpand ws) = Ok evs -> positive evs ->
+  Forall wf_sline (map (wseg_line d) ws) -> good_eol eol ->
+  spans_of (read off (tokenise (render_gen up eol (map (wseg_line d) ws))))
+  = rmap (fun spans => flat_map bspans (combine (ploads_of (wexpand ws)) spans)) (expected_with join_threshold evs).
+Proof. exact popon_times_inline_text. Qed.
+Print Assumptions C06_popon_times_inline_text.
